@@ -134,18 +134,21 @@ def _run_driver(verif, repo, cwd, cargo_args, facts_tmp, nonce, target_dir, crat
     return r
 
 
-def ensure_facts(repo, tier, verif):
+def ensure_facts(repo, tier, verif, config="default"):
     cache = os.path.join(verif, ".cache")
     os.makedirs(os.path.join(cache, "facts"), exist_ok=True)
     lock = open(os.path.join(cache, "lock"), "w")
     fcntl.flock(lock, fcntl.LOCK_EX)
     try:
         h = tree_hash(repo, verif)
+        if config != "default":
+            h = h + "-" + config
         final = os.path.join(cache, "facts", h)
         meta_p = os.path.join(final, "META.json")
         if os.path.exists(meta_p):
             meta = json.load(open(meta_p))
             meta["reused"] = True
+            os.utime(final, None)  # keep recently used facts out of the eviction below
             return final, meta
         t0 = time.time()
         tmp = final + ".tmp"
@@ -165,7 +168,8 @@ def ensure_facts(repo, tier, verif):
             target_dir = os.path.join(cache, "target-scratch")
         shutil.copy(os.path.join(repo, "Cargo.lock"), os.path.join(zoo_run, "Cargo.lock"))
         _clear_fingerprints(target_dir)
-        r = _run_driver(verif, repo, zoo_run, [], tmp, nonce, target_dir, TARGET_CRATES)
+        cargo_args = ["--features", "wide"] if config == "wide" else []
+        r = _run_driver(verif, repo, zoo_run, cargo_args, tmp, nonce, target_dir, TARGET_CRATES)
         if zoo_run != zoo:
             shutil.rmtree(zoo_run, ignore_errors=True)
         if r.returncode != 0:
@@ -198,7 +202,9 @@ def ensure_facts(repo, tier, verif):
             "crates": got,
             "bodies": sum(got.values()),
             "extract_s": round(time.time() - t0, 1),
-            "config": "zoo workspace: async-graphql[default,dataloader,apollo_persisted_queries,log,tracing,tokio] + 5 integrations + zoo fixture",
+            "config": "zoo workspace: async-graphql[default,dataloader,apollo_persisted_queries,log,tracing,tokio%s] + 5 integrations + zoo fixture"
+            % (",apollo_tracing,chrono,chrono-duration,chrono-tz,decimal,jiff,string_number,secrecy,time,url,uuid,raw_value" if config == "wide" else ""),
+            "config_name": config,
             "reused": False,
         }
         json.dump(meta, open(os.path.join(tmp, "META.json"), "w"))
@@ -209,7 +215,7 @@ def ensure_facts(repo, tier, verif):
             (d for d in os.listdir(os.path.join(cache, "facts")) if not d.endswith(".tmp")),
             key=lambda d: os.path.getmtime(os.path.join(cache, "facts", d)),
         )
-        for d in ds[:-3]:
+        for d in ds[:-6]:
             shutil.rmtree(os.path.join(cache, "facts", d), ignore_errors=True)
         return final, meta
     finally:
